@@ -89,7 +89,8 @@ def parse_inputbox(tokens, xopts):
 
 
 def create(current, tokens, sections, index):
-    if current.start is None or current.endtitle is None:
+    if current.start is None or current.endtitle is None or current.endtitle < current.start:
+        # (a heading end seen BEFORE this heading start - e.g. in an earlier table cell - closes nothing)
         return False
     start_equal_count = tokens[current.start].text.count("=")
     end_equal_count = tokens[current.endtitle].text.count("=")
